@@ -29,6 +29,7 @@ var shapeStructs = map[string]bool{"Srv": true, "Conn": true, "SrvReq": true, "S
 	"Fid": true, "Logger": true, "ufsFid": true, "Fcall": true, "Ufs": true, "Tag": true}
 
 // functions in which assignments to local byte slices are events too:
+//
 //	local:<name>=<make|slice:<x>|<ident>|call|other>
 var shapeLocals = map[string]bool{"Conn.recv": true, "Clnt.recv": true}
 
